@@ -1,9 +1,11 @@
-(* Props/C09.v -- iterative solvers: degenerate starts.  Property theorems only.
-   The CONVERGENCE half of C09 (Ok within O(n) iterations on SPD / strictly diagonally dominant systems,
-   agreement with the direct solution) is NOT proved here or anywhere: it is a statement about
-   floating-point Krylov iterations and is covered by the failing-input search of driver/c09.py only
-   (which found the Krylov-breakdown class recorded in KNOWN_FINDINGS.txt / findings/C09-krylov-breakdown.md).
-   The pre-repair BiCG and its refutation witness are in Legacy/C09Refuted.v (bicg_legacy_refuted). *)
+(* Props/C09.v -- iterative solvers: degenerate starts, and convergence in exact arithmetic.  Property theorems only.
+   First block: the degenerate-start half.  Block "iter2" (end of file): the CONVERGENCE half as far as exact
+   arithmetic allows -- CG conjugacy and finite termination on SPD / symmetric diagonally dominant systems over R,
+   BiCG = CG on symmetric matrices, BiCG bi-orthogonality and breakdown-or-terminate on arbitrary matrices, the exits of
+   BiCGSTAB / QMR, and the left-eigenvector class of the breakdowns recorded in KNOWN_FINDINGS.txt /
+   findings/C09-krylov-breakdown.md.  What is NOT proved here or anywhere: every statement about the FLOATING-POINT
+   Krylov iterations (Ok within 3n+10 iterations, agreement with the direct solution): failing-input search of
+   driver/c09.py only.  The pre-repair BiCG and its refutation witness are in Legacy/C09Refuted.v (bicg_legacy_refuted). *)
 From Coq Require Import List Arith ZArith Floats.
 From OV Require Import Base.Panic Base.Arith Model.Vector Model.Matrix Model.Sparse Model.Iter Inst.QcInst Inst.FloatInst
   Proofs.Iter Proofs.IterField Proofs.IterInst Proofs.IterRows.
